@@ -513,6 +513,7 @@ class GenCfg:
     iattr_forms: bool = True  # instance attributes assigned one by one, by tuple unpacking or by a chained assignment
     shuffle_members: bool = True  # the member sections of a class (attributes, constructor, nested classes, two halves of the methods) in any order
     shared_member_names: bool = False  # nested classes reuse member names of their outer class
+    exception_namesakes: bool = False  # exception classes named like ordinary public classes of other modules (which have public subclasses)
     twins: bool = False  # modules with the same name (and some equal declaration names) in different packages
     twin_module_reexports: bool = False  # star / module-alias re-exports of a module whose name another module shares
 
@@ -591,10 +592,29 @@ def random_pkg(rng, cfg: GenCfg) -> Pkg:
         _add_private_bases(rng, names, pkg)
     if cfg.private_name_clashes:
         _add_private_name_clashes(rng, pkg)
+    if cfg.exception_namesakes:
+        _add_exception_namesakes(rng, pkg)
     if cfg.foreign and cfg.local_foreign:
         pkg.extra_files.update(LOCAL_FOREIGN_FILES)
     pkg.combine_imports = rng.random() < 0.5
     return pkg
+
+
+def _add_exception_namesakes(rng, pkg: Pkg) -> None:
+    """Exception hierarchies (left out of the stubs by design) whose classes carry the names of ordinary public classes of other
+    modules - analysed before and after them - while the ordinary classes have public subclasses of their own."""
+    tops = [(m, d) for m in pkg.modules for d in m.decls if isinstance(d, Cls) and not d.is_exception and not is_private_name(d.name) and not d.bases]
+    rng.shuffle(tops)
+    for k, (m, c) in enumerate(tops[:2]):
+        if any(isinstance(d, (Cls, Fn, En)) and d.name in (f"Sub{c.name}", ) for d in m.decls):
+            continue
+        m.decls.append(Cls(f"Sub{c.name}", bases=[c.name], methods=[Fn(f"own_of_sub_{k}", [], "int", role="inst")], cattrs=[Attr(f"kept_attr_{k}", "int", "1")]))
+        modname = f"{'aa' if k == 0 else 'zz'}_errors{k}"
+        if any(x.pkg == m.pkg and x.name == modname for x in pkg.modules):
+            continue
+        namesake = Cls(c.name, bases=["Exception"], methods=[Fn("explain", [], "str", role="inst")], is_exception=True)
+        derived = Cls(f"{c.name}Failure", bases=[c.name], is_exception=True)
+        pkg.modules.append(Mod(m.pkg, modname, decls=[namesake, derived]))
 
 
 def _add_private_bases(rng, names, pkg: Pkg) -> None:
